@@ -187,6 +187,28 @@ def _real_tables_case(case, tier, seed):
             else:
                 res['violations'].append(dict(case=case.name, claim='shipped_code[%s:%s]' % (tname, code), values={'members': members},
                                               observed=[str(got.labile_formula), str(atoms)], how='concrete'))
+    # sequences of ambiguity codes: the formula is the sum of the residues' formulas (fractional counts that add up to
+    # whole numbers included), the volume and charge the sums of theirs
+    for tname, texts in (('dna', ['HV', 'AV', 'BBB', 'DHV', 'NNB', 'RYKMSWBDHVN', 'BDHVBDHV']), ('rna', ['HV', 'BBB', 'NNB']), ('aa', ['BZJX', 'XXX', 'BBZZ'])):
+        tab = fasta.CODE_TABLES[tname]
+        for text in texts:
+            res['claims'] += 1
+            seq = fasta.Sequence(None, text, type=tname)
+            want = {}
+            for c in text:
+                for a, n in tab[c].labile_formula.atoms.items():
+                    want[a] = want.get(a, 0) + n
+            got = seq.labile_formula.atoms
+            vol = sum(tab[c].cell_volume for c in text)
+            chg = sum(tab[c].charge for c in text)
+            ok = set(got) == set(want) and all(abs(got[a] - n) <= 1e-9 * max(1.0, n) for a, n in want.items()) and abs(seq.cell_volume - vol) <= 1e-9 * vol \
+                and abs(seq.charge - chg) <= 1e-9
+            if ok:
+                res['discharged'] += 1
+            else:
+                diff = {str(a): (got.get(a), n) for a, n in want.items() if a not in got or abs(got[a] - n) > 1e-9 * max(1.0, n)}
+                res['violations'].append(dict(case=case.name, claim='sequence_is_sum_of_residues[%s:%s]' % (tname, text), values={},
+                                              observed=[repr(diff)[:200], 'sum over the residues'], how='concrete'))
     # the formula prefixes give the same formula (counts, density) as the sequence classes, ambiguity codes included
     from periodictable import formulas
     for tname, texts in (('aa', ['A', 'ACD', 'BXZJ', 'GGX', 'XXXXXXX AC']), ('dna', ['B', 'ACGT', 'NNB', 'DHV', 'RYKMSWBDHVN']),
